@@ -45,6 +45,7 @@ class CFG:
         self.pred: dict[int, set[int]] = {0: set(), 1: set(), 2: set()}
         self.of_stmt: dict[int, int] = {}       # id(ast stmt) -> node id
         self.cond_edges: dict[tuple[int, int], tuple[ast.AST, bool]] = {}
+        self.exc_edges: set[tuple[int, int]] = set()
         self.enclosing: dict[int, list[ast.AST]] = {}  # node -> stmt stack
         self._stack: list[ast.AST] = []
         ctx = _Ctx()
@@ -76,6 +77,7 @@ class CFG:
         if ctx.handlers:
             for h in ctx.handlers[-1]:
                 self._edge(nid, h)
+                self.exc_edges.add((nid, h))
 
     def _block(self, stmts: list[ast.stmt], preds: set[int], ctx: _Ctx
                ) -> set[int]:
@@ -145,9 +147,11 @@ class CFG:
             # any statement of the body may raise into each handler
             for h in handler_entries:
                 self._edge(n, h)
+                self.exc_edges.add((n, h))
                 for b in range(first_body, last_body):
                     if b not in handler_entries:
                         self._edge(b, h)
+                        self.exc_edges.add((b, h))
             else_out = (self._block(st.orelse, body_out, ctx)
                         if st.orelse else body_out)
             outs = set(else_out)
@@ -259,6 +263,29 @@ class CFG:
         if src in th or dst in th:
             return True
         return dst not in self.reachable(src, th)
+
+    def every_path_defines(self, src: int, dst: int, defs: Iterable[int]
+                           ) -> bool:
+        """Like every_path_passes, but a definition statement that is left
+        through an *exceptional* edge has not taken effect: such edges are
+        still followed out of a definition node."""
+        dn = set(defs)
+        if dst in dn:
+            return True
+        seen: set[int] = set()
+        todo = [src]
+        while todo:
+            x = todo.pop()
+            if x in seen:
+                continue
+            seen.add(x)
+            if x == dst:
+                return False
+            for y in self.succ[x]:
+                if x in dn and x != src and (x, y) not in self.exc_edges:
+                    continue
+                todo.append(y)
+        return True
 
     def dominators(self) -> dict[int, set[int]]:
         if self._dom is None:
